@@ -114,3 +114,6 @@ class DAGNodeStorage:
         for node_id in node_ids:
             self.hide_processed_node(node_id)
             self.hide_node_result(node_id)
+            # A switch has to be resolved again in the next iteration: its consumers must not see the case
+            # that was selected in the previous one
+            self.switch_results.hide(node_id)
